@@ -335,7 +335,65 @@ def r12b_struct_fields(text):
     return text[:op + 1] + ''.join(out) + text[cl:], cnt
 
 
+def r18_break_value(text):
+    """`let X = loop { .. break V; .. };` -> `let X; loop { .. { X = V; break; } .. };`
+    (Verus has no `break` with a value; the two forms are equivalent in Rust)."""
+    cnt = 0
+    while True:
+        m, _ = mask(text)
+        mo = re.search(r'\blet\s+(\w+)\s*=\s*loop\s*\{', m)
+        if not mo:
+            break
+        var = mo.group(1)
+        op = mo.end() - 1
+        cl = match_close(m, op)
+        body = text[op:cl + 1]
+        bm = m[op:cl + 1]
+        # nested loops' spans (breaks inside them are theirs)
+        nested = []
+        for lm in re.finditer(r'\b(for|while|loop)\b', bm[1:]):
+            k = lm.end() + 1
+            depth = 0
+            while k < len(bm) and not (bm[k] == '{' and depth == 0):
+                if bm[k] in '([':
+                    depth += 1
+                elif bm[k] in ')]':
+                    depth -= 1
+                k += 1
+            if k < len(bm):
+                nested.append((k, match_close(bm, k)))
+        out = []
+        last = 0
+        for bmo in re.finditer(r'\bbreak\b', bm):
+            pos = bmo.start()
+            if any(a < pos < b for a, b in nested):
+                continue
+            # expression up to the ';' at depth 0
+            k = bmo.end()
+            depth = 0
+            while k < len(bm):
+                ch = bm[k]
+                if ch in '([{':
+                    depth += 1
+                elif ch in ')]}':
+                    depth -= 1
+                elif ch == ';' and depth == 0:
+                    break
+                k += 1
+            expr = body[bmo.end():k].strip()
+            if not expr:
+                continue
+            out.append(body[last:pos])
+            out.append('{ %s = %s; break; }' % (var, expr))
+            last = k + 1
+        out.append(body[last:])
+        text = text[:mo.start()] + 'let %s;\n        loop ' % var + ''.join(out) + text[cl + 1:]
+        cnt += 1
+    return text, cnt
+
+
 ALL = [
+    ('R18', r18_break_value),
     ('R12', r12_visibility),
     ('R13', r13_try_into),
     ('R14', r14_closure_wildcards),
